@@ -25,7 +25,6 @@ def mapRangeSites : List String := [
 ]
 /-- every call into package sort, with its key expression -/
 def sortSites : List String := [
-  "internal/cmd/generate.go:printFileErrs: sort.Slice(fileErrs) by fileErrs[i].Filename < fileErrs[j].Filename",
   "internal/codegen/golang/field.go:Tag: sort.Strings(tags)",
   "internal/codegen/golang/imports.go:interfaceImports: sort.Slice(pkgs) by pkgs[i].Path < pkgs[j].Path",
   "internal/codegen/golang/imports.go:interfaceImports: sort.Slice(stds) by stds[i].Path < stds[j].Path",
